@@ -148,6 +148,7 @@ func (d *debouncer) add(f func()) {
 		d.mu.Unlock()
 
 		if current {
+			verifDebounceGap()
 			f()
 		}
 	})
